@@ -1,11 +1,15 @@
 import GB.Base.Proto
 import GB.C19.Model
+import GB.C19.Join
 /-
   C19 driver.  Lines (hex `x…`; `m:` multimap = `xKEY:xV1,xV2` joined by `;` sorted by key):
 
     disp x<raw query> p:<header lines>  => seen=m:<r.Header at the bridge> q=m:<r.URL.Query() at the bridge>
                                            h=http|ws|grpcweb|grpcws st=<status> sp=x<sub-protocol>|- rq=m:<query at the router>|-
     mdq  x<param> x<raw query>          => q=m:<url.Values before> md=m:<metadata> q2=m:<url.Values after> mod=0|1
+    wsmd direct|bridge x<raw query> p:<header lines>
+                                        => seen=m:<r.Header at the handler> q=m:<r.URL.Query() at the handler> st=<status>
+                                           md=m:<incoming metadata the forwarder was handed>|-
 
   `dispatch` is proved equal to the RFC 7230 / media-type specification (C19_ws, C19_grpcws,
   C19_grpcweb, C19_http), so a deviation of the implementation from `dispatch` is a violation of
@@ -113,6 +117,31 @@ def handle : Handler
           | none => if rq != "-" then s!"DIFF model=rq:-" else s!"OK nt b=disp-{ms}-{st}-ct:{ctClass hd.contentType}"
       | _, _ => "BAD disp md"
     | _, _, _, _, _, _ => "BAD disp fields"
+  | ["wsmd", via, _rq, _lines], outs =>
+    if outs.head? == some "rejected" then "OK b=wsmd-rejected-by-net/http" else
+    match field outs "seen", field outs "q", field outs "st", field outs "md" with
+    | some seenS, some qS, some st, some mdS =>
+      match parseM seenS, parseM qS with
+      | some seen, some q =>
+        if st != "101" then
+          (if mdS == "-" then s!"OK b=wsmd-{via}-no-upgrade-{st}" else "DIFF model=md:-")
+        else match (if mdS == "-" then none else parseM mdS) with
+        | none => "DIFF model=forwarder-called"
+        | some md =>
+          let m := wsIncoming [] q seen
+          let qmd := (parseMetadataQuery [] q).md
+          -- a query entry lost: the specification's own clause, checked directly
+          let lost := qmd.any (fun e => e.2.any (fun v => !(mdLookup md e.1).contains v))
+          -- two query keys that differ only in case: their relative order is Go map order
+          let ks := (q.filter (fun e => isMetaKey defaultParam e.1)).map (fun e => lower (mdKeyOf defaultParam e.1))
+          let collide := ks.any (fun k => (ks.filter (· == k)).length > 1)
+          let hdrCollide := qmd.any (fun e => !(mdLookup (GB.C07.headersToMD seen) e.1).isEmpty)
+          if lost then s!"VIOL query metadata entry lost on the way to the forwarder model={showMD m}"
+          else if canonMD md != canonMD m then s!"VIOL forwarder metadata is not Join(query metadata, headers) model={showMD m}"
+          else if !collide && sortMD md != sortMD m then s!"DIFF model={showMD m}"
+          else s!"OK{if qmd.isEmpty then "" else " nt"} b=wsmd-{via}-{if qmd.isEmpty then "noquerymd" else if hdrCollide then "collides-with-header" else "disjoint"}"
+      | _, _ => "BAD wsmd md"
+    | _, _, _, _ => "BAD wsmd fields"
   | ["mdq", ph, _rq], outs =>
     match parseHex ph, field outs "q", field outs "md", field outs "q2", field outs "mod" with
     | some param, some qS, some mdS, some q2S, some mod =>
